@@ -71,6 +71,15 @@ def parse(s):
     return ('v', float.fromhex(s))
 
 
+def sexp(v):
+    """exp that never builds numbers with astronomically large exponents (exp(-exp(1e9)) would not return)."""
+    if v < -100000:
+        return mpf(0)
+    if v > 10000000:
+        return PINF
+    return mp.exp(v)
+
+
 def xlog(c, v):
     """c*log(v) with 0*log(0) = 0 and log(0) = -inf."""
     if c == 0:
@@ -104,8 +113,15 @@ def tsum(terms):
 # ---------------------------------------------------------------------------
 
 class Fam:
-    def __init__(self, name, support, terms, cdf=None, cont=None, discrete=False):
+    def __init__(self, name, support, terms, cdf=None, cont=None, discrete=False, extra=None, fuzzy=None):
         self.name, self.support, self.terms, self.cdf, self.cont, self.discrete = name, support, terms, cdf, cont, discrete
+        # extra(P, x): additional error multiplier (units of eps) of a textbook evaluation of the formula where the formula
+        # itself contains a cancellation (1 + xi*z for small xi, 1 - exp(x) for x -> 0-)
+        self.extra = extra
+        # fuzzy(P): absolute uncertainty of the end points of the support when they are not parameters themselves
+        # (mu - sigma/xi is rounded by any evaluation); points that close to an end point are judged as "no NaN" only
+        self.fuzzy = fuzzy
+        self.cdf_extra = None
 
 
 def _whole(P):
@@ -146,20 +162,74 @@ def _gev_terms(P, x):
     mu, s, xi = P
     z = (x - mu) / s
     if xi == 0:
-        return [-mp.log(s), -z, -mp.exp(-z)]
+        return [-mp.log(s), -z, -sexp(-z)]
     t = 1 + xi * z
     if t == 0:
         # end point of the support: t^(-1/xi) -> +inf (xi > 0) or 0 (xi < 0)
         return [-mp.log(s), xlog(-(1 + 1 / xi), t), NINF if xi > 0 else mpf(0)]
-    return [-mp.log(s), -(1 + 1 / xi) * mp.log(t), -mp.exp(-mp.log(t) / xi)]
+    return [-mp.log(s), -(1 + 1 / xi) * mp.log(t), -sexp(-mp.log(t) / xi)]
 
 
 def _gev_cdf(P, x):
     mu, s, xi = P
     z = (x - mu) / s
     if xi == 0:
-        return mp.exp(-mp.exp(-z))
-    return mp.exp(-mp.exp(-mp.log1p(xi * z) / xi))
+        return sexp(-sexp(-z))
+    return sexp(-sexp(-mp.log1p(xi * z) / xi))
+
+
+def _xi_extra(P, x):
+    mu, s, xi = P
+    if xi == 0:
+        return mpf(0)
+    z = (x - mu) / s
+    t = 1 + xi * z
+    if t <= 0:
+        return mpf(0)
+    rel = (1 + abs(xi * z) / t) + (abs(x) + abs(mu)) / abs(x - mu) * abs(xi * z) / t if x != mu else mpf(1)
+    return rel * (abs(1 + 1 / xi) + abs(1 / xi) * sexp(-mp.log(t) / xi))
+
+
+def _xi_cdf_extra(gev):
+    """error multiplier of a textbook evaluation of the CDF: t = 1 + xi*z is rounded before it is raised to -1/xi"""
+    def extra(P, x):
+        mu, s, xi = P
+        if xi == 0:
+            return mpf(0)
+        z = (x - mu) / s
+        t = 1 + xi * z
+        if t <= 0:
+            return mpf(0)
+        rel = 1 + abs(xi * z) / t + ((abs(x) + abs(mu)) / abs(x - mu) * abs(xi * z) / t if x != mu else 0)
+        S = sexp(-mp.log(t) / xi)
+        if gev:
+            S = S * sexp(-S)
+        return rel * abs(1 / xi) * S
+    return extra
+
+
+def _xi_fuzzy(P):
+    mu, s, xi = P
+    if xi == 0:
+        return mpf(0)
+    return 8 * EPS * (abs(mu) + abs(s / xi))
+
+
+def _betalog_extra(P, x):
+    a, b = P
+    if x >= 0:
+        return mpf(0)
+    return abs(b - 1) * sexp(x) / (-mp.expm1(x))
+
+
+def _log1m_extra(coef):
+    """rounding of 1 - p before the logarithm: absolute error eps/(1-p) times the coefficient of log(1-p)"""
+    def extra(P, x):
+        c, p = coef(P, x)
+        if p >= 1:
+            return mpf(0)
+        return abs(c) / (1 - p)
+    return extra
 
 
 def _binom_terms(P, k):
@@ -196,8 +266,8 @@ def _cat_cdf(P, k):
 def _laplace_cdf(P, x):
     mu, s = P
     if x < mu:
-        return mp.exp((x - mu) / s) / 2
-    return 1 - mp.exp(-(x - mu) / s) / 2
+        return sexp((x - mu) / s) / 2
+    return 1 - sexp(-(x - mu) / s) / 2
 
 
 FAMS = {}
@@ -214,16 +284,19 @@ _reg('laplace', _whole, lambda P, x: [-mp.log(2), -mp.log(P[1]), -abs(x - P[0]) 
 _reg('cauchy', _whole, lambda P, x: [mp.log(P[1]), -mp.log(mp.pi), -mp.log((x - P[0]) ** 2 + P[1] ** 2)])
 _reg('pareto', lambda P: (P[0], PINF), lambda P, x: [mp.log(P[1]), P[1] * mp.log(P[0]), -(P[1] + 1) * mp.log(x)],
      cdf=lambda P, x: -mp.expm1(P[1] * mp.log(P[0] / x)))
-_reg('gpareto', _gp_support, _gp_terms, cdf=_gp_cdf)
-_reg('gev', _gev_support, _gev_terms, cdf=_gev_cdf)
+_reg('gpareto', _gp_support, _gp_terms, cdf=_gp_cdf, extra=_xi_extra, fuzzy=_xi_fuzzy)
+FAMS['gpareto'].cdf_extra = _xi_cdf_extra(False)
+_reg('gev', _gev_support, _gev_terms, cdf=_gev_cdf, extra=_xi_extra, fuzzy=_xi_fuzzy)
+FAMS['gev'].cdf_extra = _xi_cdf_extra(True)
 _reg('gamma', lambda P: (mpf(0), PINF), lambda P, x: [P[0] * mp.log(P[1]), -mp.loggamma(P[0]), xlog(P[0] - 1, x), -P[1] * x],
      cdf=lambda P, x: mp.gammainc(P[0], 0, P[1] * x, regularized=True))
-_reg('beta', lambda P: (mpf(0), mpf(1)), _beta_terms)
-_reg('beta.log', lambda P: (NINF, mpf(0)), _betalog_terms)
-_reg('binomial', lambda P: (mpf(0), P[1]), _binom_terms, cont=[0], discrete=True)
-_reg('negbinomial', lambda P: (mpf(0), PINF), _nb_terms, discrete=True)
+_reg('beta', lambda P: (mpf(0), mpf(1)), _beta_terms, extra=lambda P, x: abs(P[0] - 1) + abs(P[1] - 1))
+_reg('beta.log', lambda P: (NINF, mpf(0)), _betalog_terms, extra=_betalog_extra)
+_reg('binomial', lambda P: (mpf(0), P[1]), _binom_terms, cont=[0], discrete=True, extra=_log1m_extra(lambda P, k: (P[1] - k, P[0])))
+_reg('negbinomial', lambda P: (mpf(0), PINF), _nb_terms, discrete=True, extra=_log1m_extra(lambda P, k: (P[0], P[1])))
 _reg('poisson', lambda P: (mpf(0), PINF), lambda P, k: [xlog(k, P[0]), -P[0], -mp.loggamma(k + 1)], discrete=True)
-_reg('geometric', lambda P: (mpf(0), PINF), lambda P, k: [mp.log(P[0]), xlog(k, 1 - P[0])], discrete=True)
+_reg('geometric', lambda P: (mpf(0), PINF), lambda P, k: [mp.log(P[0]), xlog(k, 1 - P[0])], discrete=True,
+     extra=_log1m_extra(lambda P, k: (k, P[0])))
 _reg('categorical', lambda P: (mpf(0), mpf(len(P) - 1)), _cat_terms, cdf=_cat_cdf, cont=[], discrete=True)
 _reg('chisq', lambda P: (mpf(0), PINF),
      lambda P, x: [xlog(P[0] / 2 - 1, x), -x / 2, -(P[0] / 2) * mp.log(2), -mp.loggamma(P[0] / 2)],
@@ -231,7 +304,7 @@ _reg('chisq', lambda P: (mpf(0), PINF),
 _reg('exponential', lambda P: (mpf(0), PINF), lambda P, x: [mp.log(P[0]), -P[0] * x], cdf=lambda P, x: -mp.expm1(-P[0] * x))
 _reg('gengamma', lambda P: (mpf(0), PINF),
      lambda P, x: [mp.log(P[2]), -P[1] * mp.log(P[0]), -mp.loggamma(P[1] / P[2]), xlog(P[1] - 1, x),
-                   -(mp.exp(P[2] * mp.log(x / P[0])) if x > 0 else mpf(0))])
+                   -(sexp(P[2] * mp.log(x / P[0])) if x > 0 else mpf(0))])
 _reg('powerlaw', lambda P: (P[1], PINF), lambda P, x: [mp.log(P[0] - 1), -mp.log(P[1]), -P[0] * mp.log(x / P[1])],
      cdf=lambda P, x: -mp.expm1((1 - P[0]) * mp.log(x / P[1])))
 _reg('delta', lambda P: (P[0], P[0]), lambda P, x: [mpf(0)], cont=[], discrete=True)
@@ -247,6 +320,13 @@ def classify(f, P, x):
         if x > hi:
             return 'outside:above'
         return 'interior'
+    if f.fuzzy is not None:
+        d = f.fuzzy(P)
+        if d > 0:
+            if mp.isfinite(lo) and lo != P[0] and abs(x - lo) <= d:
+                return 'boundary:lower~'
+            if mp.isfinite(hi) and abs(x - hi) <= d:
+                return 'boundary:upper~'
     if x < lo:
         return 'outside:below'
     if x > hi:
@@ -323,6 +403,8 @@ def lp_tol(f, P, x):
         cond = partial_sum(fun, args)
     if cond is None:
         return lp, None
+    if f.extra is not None:
+        cond += f.extra(P, x)
     return lp, K_LP * EPS * (base + cond)
 
 
@@ -331,11 +413,17 @@ def ref_point(f, P, x):
     cls = classify(f, P, x)
     if cls.startswith('outside'):
         return dict(cls=cls, mode='neginf', lp=NINF, tol=None)
+    if cls.endswith('~'):
+        return dict(cls=cls, mode='no-nan', lp=None, tol=None)
     if cls.startswith('boundary'):
         return dict(cls=cls, mode='either', lp=lp_inside(f, P, x), tol=None)
     lp, tol = lp_tol(f, P, x)
-    if tol is None or (mp.isfinite(lp) and tol > ILL * max(1, abs(lp))):
+    if mp.isfinite(lp) and abs(lp) > mpf('1.7e308'):
+        return dict(cls=cls, mode='formula', lp=NINF if lp < 0 else PINF, tol=mpf(0))
+    if tol is None:
         return dict(cls=cls, mode='finite-only', lp=lp, tol=tol)
+    if mp.isfinite(lp) and tol > ILL * max(1, abs(lp)):
+        return dict(cls=cls, mode='ill-conditioned', lp=lp, tol=tol)   # not judged beyond "not NaN"
     return dict(cls=cls, mode='formula', lp=lp, tol=tol)
 
 
@@ -359,7 +447,8 @@ def judge_value(ref, got):
         return ('formula', 'LogPdf returns error "%s" at a point of the support (expected %s)' % (val, fmt(ref['lp'])))
     v = val
     if math.isnan(v):
-        return ('support' if mode in ('neginf', 'either') else 'formula', 'LogPdf = NaN (expected %s)' % fmt(ref['lp']))
+        return ('support' if mode in ('neginf', 'either', 'no-nan') else 'formula',
+                'LogPdf = NaN (expected %s)' % (fmt(ref['lp']) if ref['lp'] is not None else 'a value next to the end of the support'))
     if mode == 'neginf':
         if v == -math.inf:
             return None
@@ -375,6 +464,8 @@ def judge_value(ref, got):
         if abs(mpf(v) - lim) <= K_LP * EPS * 64 * (1 + abs(lim)):
             return None
         return ('support', 'LogPdf = %r on the boundary of the support (expected -Inf or the limit %s)' % (v, fmt(lim)))
+    if mode in ('no-nan', 'ill-conditioned'):
+        return None
     if mode == 'finite-only':
         if math.isinf(v) and mp.isfinite(ref['lp']):
             return ('support', 'LogPdf = %r inside the support (expected about %s)' % (v, fmt(ref['lp'])))
@@ -460,8 +551,9 @@ def do_pts(e, out):
 # quadrature
 # ---------------------------------------------------------------------------
 
-def quad_sum(xs, lws, lps, reffn):
-    """-> (Q_lib, Q_ref, problems) ; nodes on/outside the reference support are dropped from both sums"""
+def quad_sum(xs, lws, lps, reffn, illfn=None):
+    """-> (Q_lib, Q_ref, problems, used) ; nodes on/outside the reference support are dropped from both sums, and so are
+    nodes with a NaN / +Inf library value at which a textbook evaluation is ill-conditioned (illfn)"""
     ql, qr = mpf(0), mpf(0)
     problems = []
     used = 0
@@ -477,21 +569,20 @@ def quad_sum(xs, lws, lps, reffn):
             continue
         v = got[1]
         used += 1
-        if math.isnan(v):
-            if r + lw > -80:
-                problems.append('LogPdf(%r) = NaN' % Hx(xh))
-            continue
-        if v == math.inf:
-            problems.append('LogPdf(%r) = +Inf' % Hx(xh))
+        if math.isnan(v) or v == math.inf:
+            if illfn is not None and illfn(x):
+                continue
+            if r + lw > -80 or v == math.inf:
+                problems.append('LogPdf(%r) = %r' % (Hx(xh), v))
             continue
         if v > -math.inf:
             a = mpf(v) + lw
             if a > -2000:
-                ql += mp.exp(a)
+                ql += sexp(a)
         if r > NINF:
             a = r + lw
             if a > -2000:
-                qr += mp.exp(a)
+                qr += sexp(a)
     return ql, qr, problems, used
 
 
@@ -508,13 +599,13 @@ def do_quad(e, out):
             k = M(xh)
             r = lp_inside(f, P, k)
             if r > NINF:
-                s_ref += mp.exp(r)
+                s_ref += sexp(r)
             got = parse(lph)
             if got[0] != 'v' or math.isnan(got[1]) or got[1] == math.inf:
                 bad.append('LogPdf(%r) -> %s' % (Hx(xh), lph))
                 continue
             if got[1] > -math.inf:
-                s_lib += mp.exp(mpf(got[1]))
+                s_lib += sexp(mpf(got[1]))
         tail = 1 - s_ref
         if abs(tail) > Q_CONV and tail > 0:
             out.c('quad:not-converged')
@@ -535,7 +626,9 @@ def do_quad(e, out):
         if classify(f, P, x) != 'interior':
             return None
         return lp_inside(f, P, x)
-    ql, qr, problems, used = quad_sum(e['x'], e['lw'], e['lp'], reffn)
+    def illfn(x):
+        return ref_point(f, P, x)['mode'] in ('ill-conditioned', 'finite-only', 'no-nan')
+    ql, qr, problems, used = quad_sum(e['x'], e['lw'], e['lp'], reffn, illfn)
     if abs(qr - 1) > Q_CONV:
         out.c('quad:not-converged')
         out.c('quad:not-converged:' + e['fam'])
@@ -585,12 +678,23 @@ def do_cdf(e, out):
     n = len(xs)
     F, tolF, reg, dens, dtol = [], [], [], [], []
     cont = f.cont if f.cont is not None else list(range(len(P)))
+    fz = f.fuzzy(P) if f.fuzzy is not None else mpf(0)
+    lo, hi = f.support(P)
     for x in xs:
         Fx = cdf_ref(f, P, x)
         r = cdf_region(f, P, x)
+        if fz > 0 and ((mp.isfinite(lo) and lo != P[0] and abs(x - lo) <= fz) or (mp.isfinite(hi) and abs(x - hi) <= fz)):
+            r = 'end~'   # next to an end point that no evaluation can locate exactly
+        if r == 'interior' and e['fam'] in ('gamma', 'chisq'):
+            # Cdf = special.GammaP(a, z): label the regions of its argument plane (C13 judges GammaP itself)
+            a, z = (P[0], P[1] * x) if e['fam'] == 'gamma' else (P[0] / 2, x / 2)
+            if a < 1:
+                r = 'interior[GammaP:a<1]'
+            elif a >= 20 and 0.5 * a < z < 1.5 * a:
+                r = 'interior[GammaP:a>=20,0.5a<z<1.5a]'
         F.append(Fx)
         reg.append(r)
-        if r == 'interior':
+        if r.startswith('interior'):
             args = [P[k] if k in cont else None for k in range(len(P))] + [None if f.discrete else x]
 
             def fun(a, x=x):
@@ -600,23 +704,29 @@ def do_cdf(e, out):
                     return None
                 return f.cdf(PP, xx)
             cond = partial_sum(fun, args)
+            if cond is not None and f.cdf_extra is not None:
+                cond += f.cdf_extra(P, x)
             tolF.append(None if cond is None else K_CDF * EPS * (1 + cond))
-            if f.discrete:
-                dens.append(None)
-                dtol.append(None)
-            else:
+            d, dt = None, None
+            if not f.discrete and cond is not None and Fx > 0:
                 lp, tl = lp_tol(f, P, x)
-                if tl is None or not mp.isfinite(lp):
-                    dens.append(None)
-                    dtol.append(None)
-                else:
-                    d = mp.exp(lp)
-                    dens.append(d)
-                    dtol.append(K_CDF * EPS * d * (1 + tl / (K_LP * EPS)) + (K_CDF * EPS * (cond if cond is not None else 0)) * d)
+                if tl is not None and mp.isfinite(lp) and lp > -660:
+                    d = sexp(lp)
+                    # relative error of the density bound + the 1-S cancellation of a CDF written as 1 - survival (eps/F)
+                    dt = K_CDF * EPS * d * (1 + tl / (K_LP * EPS) + cond + 1 / Fx)
+                    if dt > ILL * d:
+                        d, dt = None, None
+            dens.append(d)
+            dtol.append(dt)
+        elif r == 'end~':
+            tolF.append(None)
+            dens.append(None)
+            dtol.append(None)
         else:
             tolF.append(K_CDF * EPS)
-            dens.append(mpf(0) if r in ('below-support', 'above-support') else None)
-            dtol.append(mpf(0) if r in ('below-support', 'above-support') else None)
+            out_ = r in ('below-support', 'above-support')
+            dens.append(mpf(0) if out_ else None)
+            dtol.append(mpf(0) if out_ else None)
     for ty in ('Float64', 'Real64'):
         cv = [parse(s) for s in e['cdf' + ty]]
         lv = [parse(s) for s in e['lcdf' + ty]]
@@ -631,40 +741,40 @@ def do_cdf(e, out):
             out.v(e['case'], sig, '%s(%s) at x=%r (%s-held): %s' % (e['fam'], [Hx(s) for s in e['params']], Hx(e['x'][i]), ty, text),
                   {"family": e['fam'], "params": [Hx(s) for s in e['params']], "x": Hx(e['x'][i]), "type": ty, "region": reg[i],
                    "reference F": mp.nstr(F[i], 17)})
-        prev = None
+        prev = None     # last grid point whose Cdf value agreed with the reference
+        held = [False] * n
         for i in range(n):
             out.c('cdf:' + reg[i])
+            ok = True
             for nm, g in (('Cdf', cv[i]), ('LogCdf', lv[i])):
                 if g[0] != 'v':
-                    viol(i, 'error', '%s -> %s: %s (reference F = %s)' % (nm, g[0], g[1], mp.nstr(F[i], 10)))
-            if cv[i][0] == 'v':
-                c = cv[i][1]
-                if math.isnan(c):
-                    viol(i, 'value', 'Cdf = NaN (reference F = %s)' % mp.nstr(F[i], 10))
-                elif tolF[i] is not None:
-                    if abs(mpf(c) - F[i]) > tolF[i]:
-                        viol(i, 'value', 'Cdf = %r, reference F = %s (tolerance %s)' % (c, mp.nstr(F[i], 17), mp.nstr(tolF[i], 3)))
-                elif not (0 <= c <= 1):
-                    viol(i, 'value', 'Cdf = %r is not a probability' % c)
-                if not math.isnan(c):
-                    if prev is not None and tolF[i] is not None and tolF[prev[0]] is not None:
-                        if mpf(c) < mpf(prev[1]) - tolF[i] - tolF[prev[0]]:
-                            viol(i, 'monotone', 'Cdf decreases: Cdf(%r) = %r but Cdf(%r) = %r' % (Hx(e['x'][prev[0]]), prev[1], Hx(e['x'][i]), c))
-                    prev = (i, c)
-            if lv[i][0] == 'v':
-                l = lv[i][1]
-                if math.isnan(l):
-                    viol(i, 'logvalue', 'LogCdf = NaN (reference log F = %s)' % (mp.nstr(mp.log(F[i]), 10) if F[i] > 0 else '-inf'))
-                elif l > 0 and mpf(l) > (tolF[i] or K_CDF * EPS):
-                    viol(i, 'logvalue', 'LogCdf = %r > 0 (reference F = %s)' % (l, mp.nstr(F[i], 10)))
-                elif tolF[i] is not None:
-                    el = mp.exp(mpf(l)) if l > -math.inf else mpf(0)
-                    if abs(el - F[i]) > tolF[i]:
-                        viol(i, 'logvalue', 'exp(LogCdf) = %s (LogCdf = %r), reference F = %s (tolerance %s)' % (
-                            mp.nstr(el, 17), l, mp.nstr(F[i], 17), mp.nstr(tolF[i], 3)))
+                    viol(i, 'value', '%s -> %s: %s (reference F = %s)' % (nm, g[0], g[1], mp.nstr(F[i], 10)))
+                    ok = False
+            if not ok:
+                continue
+            c, l = cv[i][1], lv[i][1]
+            if math.isnan(c) or math.isnan(l):
+                viol(i, 'value', 'Cdf = %r, LogCdf = %r (reference F = %s)' % (c, l, mp.nstr(F[i], 10)))
+                continue
+            if tolF[i] is None:
+                if not (0 <= c <= 1) or l > 0:
+                    viol(i, 'value', 'Cdf = %r, LogCdf = %r is not a probability' % (c, l))
+                continue
+            if abs(mpf(c) - F[i]) > tolF[i]:
+                viol(i, 'value', 'Cdf = %r, reference F = %s (tolerance %s)' % (c, mp.nstr(F[i], 17), mp.nstr(tolF[i], 3)))
+                continue
+            el = sexp(mpf(l)) if l > -math.inf else mpf(0)
+            if abs(el - F[i]) > tolF[i] or mpf(l) > tolF[i]:
+                viol(i, 'value', 'exp(LogCdf) = %s (LogCdf = %r), reference F = %s (tolerance %s)' % (mp.nstr(el, 17), l, mp.nstr(F[i], 17), mp.nstr(tolF[i], 3)))
+                continue
+            out.c('cdf:value-held')
+            held[i] = True
+            if prev is not None and mpf(c) < mpf(prev[1]) - tolF[i] - tolF[prev[0]]:
+                viol(i, 'monotone', 'Cdf decreases: Cdf(%r) = %r but Cdf(%r) = %r' % (Hx(e['x'][prev[0]]), prev[1], Hx(e['x'][i]), c))
+            prev = (i, c)
         if ty == 'Real64' and 'dcdf' in e and not f.discrete:
             for i in range(n):
-                if dens[i] is None:
+                if dens[i] is None or not held[i]:   # a wrong value already explains a wrong derivative
                     continue
                 g = parse(e['dcdf'][i])
                 out.evals += 1
@@ -673,7 +783,11 @@ def do_cdf(e, out):
                 elif g[0] == 'err':
                     viol(i, 'derivative', 'Cdf with a Real64 variable argument returns error: %s' % g[1])
                 elif g[0] == 'noderiv':
-                    viol(i, 'derivative', 'Cdf of a Real64 variable carries no derivative')
+                    # a result without derivative slots is a constant: derivative zero
+                    if dens[i] != 0:
+                        viol(i, 'derivative', 'Cdf of a Real64 variable carries no derivative (density = %s)' % mp.nstr(dens[i], 10))
+                    else:
+                        out.c('cdf:derivative-judged')
                 else:
                     d = g[1]
                     out.c('cdf:derivative-judged')
@@ -739,10 +853,12 @@ def wrap_ref(e, x):
         comps = []
         any_in, any_bd = False, False
         for wj, b in zip(w, e['bases']):
-            if wj == 0:
-                continue
             f, P = base_of(b)
             r = ref_point(f, P, x)
+            if r['cls'].startswith('boundary'):
+                any_bd = True
+            if wj == 0:
+                continue
             comps.append((mp.log(wj / tot), r))
             if r['cls'] == 'interior':
                 any_in = True
@@ -758,10 +874,10 @@ def wrap_ref(e, x):
         if not vals:
             return dict(cls='interior', mode='formula', lp=NINF, tol=mpf(0))
         m = max(v for v, _, _ in vals)
-        lp = m + mp.log(mp.fsum(mp.exp(v - m) for v, _, _ in vals))
+        lp = m + mp.log(mp.fsum(sexp(v - m) for v, _, _ in vals))
         tol = mpf(0)
         for v, lw, r in vals:
-            resp = mp.exp(v - lp)
+            resp = sexp(v - lp)
             tol += resp * (r['tol'] + K_LP * EPS * (abs(lw) + abs(v) + 2))
         tol += K_LP * EPS * (abs(lp) + len(w))
         return dict(cls='interior', mode='formula', lp=lp, tol=tol)
@@ -769,8 +885,14 @@ def wrap_ref(e, x):
 
 
 def wrap_name(e):
+    return e['kind']
+
+
+def wrap_desc(e):
     if e['kind'] in ('translation', 'logtransform'):
-        return '%s(%s)' % (e['kind'], e['base']['fam'])
+        return '%s(%s(%s), c=%r)' % (e['kind'], e['base']['fam'], [Hx(s) for s in e['base']['params']], Hx(e['c']))
+    if e['kind'] == 'mixture':
+        return 'mixture(weights=%s, %s)' % ([Hx(s) for s in e['weights']], ', '.join('%s(%s)' % (b['fam'], [Hx(s) for s in b['params']]) for b in e['bases']))
     return e['kind']
 
 
@@ -798,7 +920,7 @@ def do_wrap(e, out):
             out.evals += 1
             bad = judge_value(ref, got)
             if bad:
-                out.v(e['case'], '%s|%s|%s' % (head, ref['cls'], bad[0]), '%s at x=%r: %s' % (wrap_name(e), Hx(xs), bad[1]),
+                out.v(e['case'], '%s|%s|%s' % (head, ref['cls'], bad[0]), '%s at x=%r: %s' % (wrap_desc(e), Hx(xs), bad[1]),
                       dict(wit, type=ty, observed=e['lp' + ty][i]))
         type_check(out, e, head, ref['cls'], ref, res['Float64'], res['Real64'], wit)
     if 'qx' in e:
@@ -825,7 +947,7 @@ def do_wrap(e, out):
         if problems or abs(ql - expected) > Q_TOL:
             out.v(e['case'], head + '|support-interior|normalisation',
                   '%s: integral of exp(LogPdf) = %s (composition rule on the same nodes: %s)%s' % (
-                      wrap_name(e), mp.nstr(ql, 15), mp.nstr(qr, 15), '; ' + '; '.join(problems[:3]) if problems else ''),
+                      wrap_desc(e), mp.nstr(ql, 15), mp.nstr(qr, 15), '; ' + '; '.join(problems[:3]) if problems else ''),
                   dict(wit0, integral=mp.nstr(ql, 17), type=e.get('qtype')))
 
 
@@ -852,12 +974,12 @@ def wrap_ref_density(e, x):
         tot = mp.fsum(w)
         vals = []
         for wj, b in zip(w, e['bases']):
-            if wj == 0:
-                continue
             f, P = base_of(b)
             cl = classify(f, P, x)
             if cl.startswith('boundary'):
                 return None
+            if wj == 0:
+                continue
             if cl == 'interior':
                 v = lp_inside(f, P, x)
                 if v > NINF:
@@ -865,7 +987,7 @@ def wrap_ref_density(e, x):
         if not vals:
             return NINF
         m = max(vals)
-        return m + mp.log(mp.fsum(mp.exp(v - m) for v in vals))
+        return m + mp.log(mp.fsum(sexp(v - m) for v in vals))
     raise ValueError(kind)
 
 
@@ -877,10 +999,10 @@ def do_product(e, out, head):
         for j, xj in enumerate(x):
             f, P = bases[j] if e['kind'] == 'id' else bases[0]
             coords.append(ref_point(f, P, xj))
+        if any(r['cls'].startswith('boundary') or r['cls'] == 'outside:non-integer' for r in coords):
+            out.c('wrap:product/skip')
+            continue
         if any(r['cls'].startswith('outside') for r in coords):
-            if any(r['cls'] == 'outside:non-integer' for r in coords):
-                out.c('wrap:product/skip')
-                continue
             ref = dict(cls='outside', mode='neginf', lp=NINF, tol=None)
         elif any(r['mode'] != 'formula' for r in coords):
             out.c('wrap:product/skip')
@@ -906,6 +1028,15 @@ def do_product(e, out, head):
 # ---------------------------------------------------------------------------
 # multivariate families
 # ---------------------------------------------------------------------------
+
+def log_ncdf(t):
+    """log of the standard normal CDF for any t (mp.ncdf cannot take |t| beyond ~1e100)."""
+    if t < -mpf(10) ** 6:
+        return -t * t / 2 - mp.log(-t) - mp.log(2 * mp.pi) / 2 + mp.log1p(-1 / (t * t))
+    if t > mpf(10) ** 6:
+        return mpf(0)
+    return mp.log(mp.ncdf(t))
+
 
 def mat_of(v, n):
     return mp.matrix([[v[i * n + j] for j in range(n)] for i in range(n)])
@@ -983,8 +1114,8 @@ def mv_ref(e, i):
         z = [(x[a] - xi[a]) / sc[a] for a in range(n)]
         t = mp.fsum(al[a] * z[a] for a in range(n))
         ta = mp.fsum(abs(al[a] * z[a]) * (1 + (abs(x[a]) + abs(xi[a])) / max(abs(x[a] - xi[a]), mpf(10) ** -300)) for a in range(n))
-        lcdf = mp.log(mp.ncdf(t))
-        haz = mp.npdf(t) / mp.ncdf(t)
+        lcdf = log_ncdf(t)
+        haz = sexp(-t * t / 2 - mp.log(2 * mp.pi) / 2 - lcdf) if abs(t) < mpf(10) ** 6 else (abs(t) if t < 0 else mpf(0))
         lp = mp.log(2) + r[0] + lcdf
         bound = mp.log(2) + r[1] + abs(lcdf) + haz * (ta + abs(t)) + 4
     elif fam == 'iwishart':
@@ -1145,7 +1276,7 @@ def self_check():
                          ('exponential', [2], [0, 1, PINF]), ('gengamma', [2, 3, 1.5], [0, 2, PINF]), ('powerlaw', [2.5, 2], [2, 4, PINF])]:
         f = FAMS[name]
         PP = [mpf(p) for p in P]
-        val = mp.quad(lambda x: mp.exp(lp_inside(f, PP, x)) if classify(f, PP, x) == 'interior' else mpf(0), [mpf(p) for p in pts])
+        val = mp.quad(lambda x: sexp(lp_inside(f, PP, x)) if classify(f, PP, x) == 'interior' else mpf(0), [mpf(p) for p in pts])
         if abs(val - 1) > mpf(10) ** -12:
             bad.append('reference density of %s%s integrates to %s' % (name, P, mp.nstr(val, 15)))
     return bad
